@@ -162,6 +162,9 @@ class CondModel:
         act = self.active()
         if self.cursor['GLOBAL'] > 0x3f0 and k in ('marker', 'sym_use', 'use_const', 'use_label', 'usezone'):
             return None          # keep GLOBAL's bytes clear of the zones (overlap is C04's business)
+        if self.zone != 'GLOBAL' and self.cursor[self.zone] > self.zones[self.zone] + 14 and k in (
+                'marker', 'sym_use', 'use_const', 'use_label'):
+            return None          # a 16-byte zone is full: one more byte is C04's "address outside the zone" (soak 778)
         if k == 'if':
             if not self.cond_ok(op['cond']) or len(self.frames) >= 4:
                 return None
